@@ -18,7 +18,7 @@ def units(tier):
         defines=["PH=%d" % ph, "HSTEPS=%d" % hs, "VP_PATH"], native_defines=["VP_NATIVE_BUILD"],
         assumptions=["counter wrap at 2^64 outside the claim", "copying Observer objects outside the claim", "histories of <= %d actions, <= 3 observers, one observable" % hs])
     ts = PathUnit("timestamp_mt", "harness/C19_observer.cpp", [
-        P("vp_main_timestamp_threads", "2 threads x (create + renew): all four values distinct, each thread's increasing; every interleaving with <= %d preemptions at the atomic operations" % (2 if q else 4))],
+        P("vp_main_timestamp_threads", "2 threads x (create + renew): all four values distinct, each thread's increasing; every interleaving with <= %d preemptions at the atomic operations (atomic loads included)" % (2 if q else 4))],
         defines=["PH=1", "VP_PATH", "PREEMPT=%d" % (2 if q else 4)], native_defines=["VP_NATIVE_BUILD"], validate=False, replay_repeat=5,
         assumptions=["sequential consistency; 2 threads"], stubs=["threads: cooperative interleaving of whole IR instructions"])
     return [obs, ts]
